@@ -5,16 +5,16 @@ import json, os, subprocess, sys
 sys.path.insert(0, '/verif')
 from mokalint.props import PROPERTIES
 sys.path.insert(0, '/verif/tools')
-from _runall import run_all
+from _runall import run_all, REPO
 only = sys.argv[1:]
 seeded = '/verif/seeded'
 res = {}
-assert subprocess.run(['git', '-C', '/repo', 'diff', '--quiet']).returncode == 0, '/repo dirty'
+assert subprocess.run(['git', '-C', REPO, 'diff', '--quiet']).returncode == 0, '/repo dirty'
 for d in sorted(os.listdir(seeded)):
     p = os.path.join(seeded, d, 'patch.diff')
     if not os.path.exists(p): continue
     if only and not any(d.startswith(o) for o in only): continue
-    if subprocess.run(['git', '-C', '/repo', 'apply', p]).returncode != 0:
+    if subprocess.run(['git', '-C', REPO, 'apply', p]).returncode != 0:
         res[d] = 'PATCH-FAILS'; continue
     caught, failed = [], []
     try:
@@ -25,7 +25,7 @@ for d in sorted(os.listdir(seeded)):
             elif rc != 0:
                 failed.append('%s:%s' % (pid, lines[-1][:150] if lines else ''))
     finally:
-        subprocess.run(['git', '-C', '/repo', 'checkout', '--', '.'])
+        subprocess.run(['git', '-C', REPO, 'checkout', '--', '.'])
     res[d] = {'caught_by': caught, 'check_failed': failed}
     own = d.split('-')[0]
     print(d, 'OWN' if any(c.startswith(own) for c in caught) else ('other' if caught else 'MISSED'), caught, failed)
